@@ -336,6 +336,10 @@ func (h *hier) addAt(z *hLevel, sealed *types.WorkObject) (*types.WorkObject, er
 		time.Sleep(25 * time.Millisecond)
 	}
 	if ok, at := appended(); !ok {
+		if order == common.ZONE_CTX {
+			// a zone-order block waits for nothing outside the zone: the zone refused the block its own worker assembled
+			return zblk, fmt.Errorf("zone-order block not appended by its zone %v after %d inserts: %v", at.loc, 40, lastErr)
+		}
 		return zblk, fmt.Errorf("%w: block not appended at %v after insert (order %d): %v", errHierStuck, at.loc, order, lastErr)
 	}
 	for i := order; i <= common.ZONE_CTX; i++ {
